@@ -49,9 +49,28 @@ FwdEv ==
                  ELSE Report(drift, scn, l, "forward.Director+ReverseProxy")
   /\ UNCHANGED scn /\ nev' = nev + 1
 
+(* a request asking for a protocol switch: Upgrade header plus a Connection header naming it (any spelling).  When the  *)
+(* backend switches (101) the client must get that 101 with the backend's headers and a working byte stream both ways; *)
+(* when the request does not ask, or the backend declines, it is an ordinary exchange.                                *)
+UpgEv ==
+  /\ IsEvent("Upg")
+  /\ LET switch == Ev.asks /\ Ev.backend = "101" IN
+     bad' = ReportAll(bad, scn, l, <<
+          <<Ev.seen, "C16.RequestReachesBackend">>,
+          <<~Ev.hang, "C16.NeverHangs">>,
+          <<Ev.seen => Ev.sawEnd, "C08.EndToEndHeadersPreserved">>,
+          <<(Ev.seen /\ Ev.asks) => Ev.sawUpgrade, "C16.UpgradeRequestRelayed">>,
+          <<switch => Ev.status = 101, "C16.StatusMapping">>,
+          <<switch => (Ev.backHdr /\ Ev.upHdr = Ev.proto), "C16.ResponseHeadersRelayed">>,
+          <<switch => (Ev.down /\ Ev.up), "C16.UpgradedStreamRelayed">>,
+          <<~switch => Ev.status = 200, "C16.StatusMapping">>,
+          <<~switch => (Ev.backHdr /\ Ev.body = "plain"), "C16.ResponseBodyRelayed">>,
+          <<Ev.events = <<"connected", "disconnected">>, "C16.ListenerEventsPaired">> >>)
+  /\ UNCHANGED <<scn, drift>> /\ nev' = nev + 1
+
 End == /\ IsEvent("End")
        /\ JsonSerialize("result.json", [bad |-> bad, drift |-> drift, events |-> nev, lines |-> l])
        /\ UNCHANGED vars
-Next == Reset \/ FwdEv \/ End
+Next == Reset \/ FwdEv \/ UpgEv \/ End
 Spec == Init /\ [][Next]_vars
 =============================================================================
